@@ -44,6 +44,7 @@ pub fn op_to_json(op: &Op) -> Value {
         Op::BadCreate { bid, price, vol, place } => {
             json!({"k":"bad_create","bid":bid,"price":price,"vol":vol,"place":place})
         }
+        Op::Observe => json!({"k":"observe"}),
     }
 }
 
@@ -63,6 +64,7 @@ pub fn op_from_json(v: &Value) -> Option<Op> {
         "disable" => Op::Disable,
         "reset_tv" => Op::ResetTv,
         "reload" => Op::Reload { mode: u("mode")? as u8 },
+        "observe" => Op::Observe,
         "bad_create" => Op::BadCreate {
             bid: b("bid")?,
             price: u("price")? as u32,
